@@ -79,11 +79,13 @@ type result struct {
 	opsPerEv []int // durable ops performed while processing each event (uncrashed run)
 	opsRedel int   // durable ops of the redelivery phase (when it ran uncrashed)
 	crashOp  string
+	loopDied bool // I/O-error runs: the sync loop ended with an error (the node shut down and was restarted)
 }
 
 // runOnce replays the scenario; crashEv >= 0 arms a crash at durable op crashK while event crashEv
 // is processed; nestedK >= 0 arms a second crash at durable op nestedK of the redelivery phase.
-func runOnce(sc Scenario, crashEv, crashK, nestedK int, dir string) (res result) {
+func runOnce(sc Scenario, crashEv, crashK, nestedK int, dir string, ioErr ...bool) (res result) {
+	ioFault := len(ioErr) > 0 && ioErr[0]
 	res.v = sw.InBubble(func() world.Verdict {
 		root, _ := os.MkdirTemp(dir, "c05")
 		defer os.RemoveAll(root)
@@ -103,7 +105,11 @@ func runOnce(sc Scenario, crashEv, crashK, nestedK int, dir string) (res result)
 		for i, e := range sc.Events {
 			start := f.Raw.Ops()
 			if i == crashEv {
-				f.Raw.ArmCrashAfter(crashK)
+				if ioFault {
+					f.Raw.ArmErrorAfter(crashK) // the write fails with an I/O error, the process lives on
+				} else {
+					f.Raw.ArmCrashAfter(crashK)
+				}
 			}
 			if err := deliver(f, c, e); err != nil {
 				return world.Fail("C05/harness", "%v", err)
@@ -111,6 +117,20 @@ func runOnce(sc Scenario, crashEv, crashK, nestedK int, dir string) (res result)
 			f.Quiesce()
 			f.Raw.Disarm()
 			res.opsPerEv[i] = f.Raw.Ops() - start
+			if i == crashEv && ioFault {
+				if lg := f.Raw.Log(start); len(lg) > crashK {
+					res.crashOp = "I/O error at " + lg[crashK].Kind + fmt.Sprint(lg[crashK].Keys)
+				}
+				if len(f.Errors) > 0 {
+					// the sync loop gave up: FullNode.Run shuts the node down (caches are saved) and the
+					// operator starts it again
+					res.loopDied = true
+					crashed = true
+					break
+				}
+				// the error was only logged: the node keeps running, nothing else happens to it
+				continue
+			}
 			if i == crashEv {
 				if lg := f.Raw.Log(start); f.Raw.Dead() && len(lg) > 0 {
 					res.crashOp = lg[len(lg)-1].Kind + fmt.Sprint(lg[len(lg)-1].Keys)
@@ -122,12 +142,16 @@ func runOnce(sc Scenario, crashEv, crashK, nestedK int, dir string) (res result)
 				return world.Fail("C05/precrash/"+p.Sig, "%s", p.Msg)
 			}
 		}
-		if !crashed {
+		if !crashed && !ioFault {
 			return world.OK(false)
 		}
 		// process death and restart
 		restart := func(when string) *world.Verdict {
-			if err := f.Restart(false); err != nil {
+			clean := ioFault && !f.Raw.Dead()
+			if clean {
+				f.Errors = nil
+			}
+			if err := f.Restart(clean); err != nil {
 				v := world.Fail("C05/restart-fails", "%s: node does not start on the image left by the crash: %v", when, err)
 				return &v
 			}
@@ -138,8 +162,10 @@ func runOnce(sc Scenario, crashEv, crashK, nestedK int, dir string) (res result)
 			}
 			return nil
 		}
-		if v := restart(fmt.Sprintf("right after restart (crash at event %d op %d: %s)", crashEv, crashK, res.crashOp)); v != nil {
-			return *v
+		if crashed {
+			if v := restart(fmt.Sprintf("right after restart (crash at event %d op %d: %s)", crashEv, crashK, res.crashOp)); v != nil {
+				return *v
+			}
 		}
 		// redelivery of everything in a generated order
 		startRedel := f.Raw.Ops()
@@ -223,8 +249,23 @@ func run(sc Scenario, dir string) world.Verdict {
 			}
 		}
 	}
+	// the same boundaries with a write that FAILS (I/O error) instead of a process death: whatever the node
+	// does after the failed write (give up and be restarted, or log and go on) it must still converge
+	ioRuns, ioDied := 0, 0
+	for i, n := range base.opsPerEv {
+		for k := 0; k < n; k++ {
+			r := runOnce(sc, i, k, -1, dir, true)
+			ioRuns++
+			if r.loopDied {
+				ioDied++
+			}
+			if r.v.Violation != "" {
+				return r.v
+			}
+		}
+	}
 	v := world.OK(inside > 0 && nested > 0)
-	v.Counts = map[string]int{"crash-runs": runs, "nested-crash-runs": nested, "crash-inside-application": inside}
+	v.Counts = map[string]int{"crash-runs": runs, "nested-crash-runs": nested, "crash-inside-application": inside, "io-error-runs": ioRuns, "io-error-runs-in-which-the-sync-loop-gave-up": ioDied}
 	return v
 }
 
